@@ -32,13 +32,27 @@ where
     S: AsRef<str>,
 {
     let expr = expr.as_ref();
+    if expr.contains('@') {
+        // '@' is the internal placeholder that protects negative exponents below
+        return Err(PolynomialError::UnexpectedChar { char: '@' });
+    }
     let ascii_letters = "abcdefghijklmnopqrstuvwxyzABCDEFGHIJKLMNOPQRSTUVWXYZ";
     let normalized = expr
         .replace(char::is_whitespace, "") // the compiler re-spaces (and line-breaks) macro input
         .replace("^-", "^@")
         .replace("-", "+-")
         .replace("^@", "^-"); // ^- -> ^@ protects negative exponents
-    let parts: Vec<&str> = normalized.split('+').filter(|s| !s.is_empty()).collect();
+    let mut parts: Vec<&str> = normalized.split('+').collect();
+
+    // A leading sign leaves an empty first part ("-x + 4", "+x")
+    if parts.first() == Some(&"") {
+        parts.remove(0);
+    }
+
+    // A doubled or dangling operator ("x--y", "x -", "x +") is not a term
+    if parts.iter().any(|s| s.is_empty() || *s == "-") {
+        return Err(PolynomialError::PolynomialSyntaxError);
+    }
 
     let mut parsed = Vec::new();
     let mut coeff = String::new();
@@ -124,6 +138,10 @@ where
                     };
                 };
                 vars.push((var, power));
+            } else {
+                // Anything else ('*', '(', a digit after a variable, ...) has a meaning this
+                // parser does not implement: refuse it instead of skipping it
+                return Err(PolynomialError::UnexpectedChar { char: ch });
             }
         }
         vars.sort_by(|a, b| a.0.cmp(&b.0));
